@@ -1143,6 +1143,9 @@ func sampleMiss(s string) {
 
 func TestC19Detector(t *testing.T) {
 	rapid.Check(t, func(t *rapid.T) {
+		if vstat.OverBudget() {
+			return
+		}
 		vstat.Case()
 		sc := genScenario(t)
 		r := runScenario(sc, scaling{1, 1}, true)
